@@ -46,6 +46,12 @@ fn gen_input(rng: &mut Rng, idx: u64, directed: &[(String, Vec<u8>)]) -> (String
         let (w, _m, _s) = crate::genmod::encode_module(0x0001_0300, 0, 20_000, &insts, None);
         return (format!("long-last-line-{}", len), words_to_bytes(&w));
     }
+    if idx % 9 == 7 {
+        let variant = rng.next() % crate::scale::N_VARIANTS;
+        let (label, insts) = crate::scale::scale_module(rng, variant);
+        let (w, _m, _s) = crate::genmod::encode_module(0x0001_0300, 0, 1 << 22, &insts, None);
+        return (format!("scale {}", label), words_to_bytes(&w));
+    }
     let must = vec![rng.below(d.insts.len())];
     let small = rng.chance(1, 2);
     let b = gen_base(rng, must, small);
